@@ -188,3 +188,8 @@ def RELS_PART(p):
     sl = z3.StringVal("/")
     return z3.If(z3.Contains(p, sl), z3.Concat(DIRNAME(p), z3.StringVal("/_rels/"), BASENAME(p), z3.StringVal(".rels")),
                  z3.Concat(z3.StringVal("_rels/"), p, z3.StringVal(".rels")))
+
+
+# percent-decoding of an IRI reference (EPUB manifest hrefs are IRI references, ZIP member names are unescaped): %XX -> byte, UTF-8;
+# '+' is NOT a space in a path (that is the form-encoding rule of query strings).  Uninterpreted; the model of urllib.parse.unquote.
+PCT = z3.Function("percent_decode", S, S)
